@@ -11,6 +11,8 @@ EXPLANATION = (
     "constructor stores its registers argument unmodified, registers() returns the field, derived PartialEq covers registers, b, buildhasher."
     ' The join is applied on every path of add_hashed — either `cell = max(cell, p)` unconditionally or `if cell < p { cell = p }` (skipped exactly when it is a no-op).'
 )
+from .common import NEW_WRITERS_NOTE as _NWN
+EXPLANATION = EXPLANATION + _NWN % "17"
 NOT_DECIDED = "nothing structural; count() accuracy is C03"
 ASSUMPTIONS = ["u64::leading_zeros(0) == 64", "cmp::max on u8 is the lattice join"]
 
@@ -47,6 +49,8 @@ def low_bits_form(t):
 
 
 def run(ctx):
+    from .common import check_new_writers
+    check_new_writers(ctx, "R17-new-writers", ['hyperloglog::HyperLogLog'])
     prog = ctx.prog
     ah = ctx.anchor(HLL + "::add_hashed")
     if ah is None:
